@@ -212,6 +212,9 @@ func (f *n3Fam) buildHeader(h neoHdrSpec) ([]byte, *neo3.NeoBlockHeader, []byte,
 	bh.SetIndex(h.index)
 	bh.SetTimeStamp(1600000000000 + uint64(h.index))
 	bh.SetNextConsensus(next)
+	if h.link && len(h.prev) == 32 {
+		bh.SetPrevHash(helper.UInt256FromBytes(h.prev))
+	}
 	bh.Witness = &tx.Witness{InvocationScript: []byte{}, VerificationScript: n3Script(wd)}
 	nh := &neo3.NeoBlockHeader{Header: bh}
 	msg, err := nh.GetMessage(n3Magic)
@@ -254,14 +257,14 @@ func (f *n3Fam) Exec(r *hx.Run, op []string) string {
 				continue
 			}
 			q := strings.Split(tok, "/")
-			if len(q) != 4 {
+			if len(q) != 4 && !(len(q) == 5 && q[4] == "p") {
 				return "bad-op"
 			}
 			idx, err := strconv.ParseUint(q[0], 10, 32)
 			if err != nil {
 				return "bad-op"
 			}
-			specs = append(specs, neoHdrSpec{index: uint32(idx), next: q[1], wscript: q[2], sigs: q[3]})
+			specs = append(specs, neoHdrSpec{index: uint32(idx), next: q[1], wscript: q[2], sigs: q[3], link: len(q) == 5})
 		}
 		before, had := f.tracked()
 		p := &hscommon.SyncBlockHeaderParam{ChainID: n3ChainID}
@@ -271,11 +274,14 @@ func (f *n3Fam) Exec(r *hx.Run, op []string) string {
 			wd  neoDesc
 		}
 		var bs []built
+		var prevHash []byte
 		for _, s := range specs {
+			s.prev = prevHash
 			raw, nh, msg, wd, ok := f.buildHeader(s)
 			if !ok {
 				return "bad-op"
 			}
+			prevHash = append([]byte{}, nh.GetHash().ToByteArray()...)
 			p.Headers = append(p.Headers, raw)
 			bs = append(bs, built{nh, msg, wd})
 		}
